@@ -1283,11 +1283,13 @@ def shrink(case: dict, pred, budget: int = 250) -> dict:
     cur = strip(case)
     progress = True
     n = 0
-    while progress and n < budget:
+    import time as _t
+    t0_ = _t.time()   # wall-clock limit: a change that makes every evaluation slow must not stall the check
+    while progress and n < budget and _t.time() - t0_ < 60:
         progress = False
         for cand in _variants(cur):
             n += 1
-            if n >= budget:
+            if n >= budget or _t.time() - t0_ >= 60:
                 break
             try:
                 if pred(cand):
